@@ -24,7 +24,7 @@ def c05_suites(tier):
 
 
 def c06_suites(tier):
-    return [system.StartStopSuite(), system.RandomSessionSuite()]
+    return [system.StartStopSuite(), system.RandomSessionSuite(), system.StatementLevelSuite()]
 
 
 def c07_suites(tier):
@@ -72,7 +72,8 @@ def c15_suites(tier):
 
 
 def c10_suites(tier):
-    return [timing.ProgressSuite(), system.RandomSessionSuite(), system.WaitSuite(), system.StartStopSuite()]
+    return [timing.ProgressSuite(), system.RandomSessionSuite(), system.WaitSuite(), system.StartStopSuite(),
+            system.StatementLevelSuite()]
 
 
 def c18_suites(tier):
